@@ -458,6 +458,22 @@ def extent_findings(dv: DecoderView):
                         if w2 is not None:
                             bad.append(("extent[trailer found => extent ends there]",
                                         "the closing SOH of the frame's CheckSum trailer was found but a path reaches the split without taking the extent from it", t.ast))
+    # the extent ends right behind an SOH: every value the split bound can have is `<position of an SOH-anchored search hit> + 1` (the hit
+    # is the SOH that closes the frame / its trailer) or the length of the text; another offset puts the first byte of the next frame into
+    # this one or leaves the closing SOH out.  Values whose form is not `search hit / len(text) + constant` are not judged.
+    inst += 1
+    for sn in split_nodes:
+        for base, off, where in _linear_values(dv, split_bound, sn, 0):
+            if base is None:
+                continue
+            kind, what = base
+            if kind == "search" and isinstance(what, str) and what.startswith(dv.soh) and off != 1:
+                bad.append((f"extent[ends behind the SOH found: hit{off:+d}]",
+                            f"the frame extent is taken as the position of the `{what!r}` hit {off:+d}, not + 1 (right behind that SOH): "
+                            + ("the first byte(s) of the next frame are counted to this frame and are lost with it" if off > 1 else
+                               "the frame's closing SOH is left in the buffer"), where))
+            elif kind == "len" and off != 0:
+                bad.append((f"extent[whole text{off:+d}]", f"the frame extent without a delimiter is len(text){off:+d}, not the text's length", where))
     # the returned bytes are the buffer slice [start : start + extent]
     inst += 1
     for r in dv.returns:
@@ -484,6 +500,56 @@ def extent_findings(dv: DecoderView):
     return inst, bad
 
 
+def _linear_values(dv, expr, at, depth, _seen=None):
+    """Values of an integer expression at CFG node `at` as (base, offset, defining node): base is ('search', <folded pattern>) for a find/index
+    call on a text, ('len', <text>) for len(<name>), ('const', None) for a plain number, or None when the form is not linear in one of those."""
+    _seen = _seen or set()
+    g = dv.cfg
+    if isinstance(expr, ast.Constant) and isinstance(expr.value, int) and not isinstance(expr.value, bool):
+        return [(("const", None), expr.value, expr)]
+    if isinstance(expr, ast.UnaryOp) and isinstance(expr.op, ast.USub) and isinstance(expr.operand, ast.Constant) and isinstance(expr.operand.value, int):
+        return [(("const", None), -expr.operand.value, expr)]
+    if isinstance(expr, ast.BinOp) and isinstance(expr.op, (ast.Add, ast.Sub)):
+        out = []
+        for lb, lo_, lw in _linear_values(dv, expr.left, at, depth, _seen):
+            for rb, ro, _rw in _linear_values(dv, expr.right, at, depth, _seen):
+                sign = 1 if isinstance(expr.op, ast.Add) else -1
+                if lb is None or rb is None:
+                    out.append((None, 0, expr))
+                elif rb[0] == "const":
+                    out.append((lb, lo_ + sign * ro, lw if lb[0] != "const" else expr))
+                elif lb[0] == "const" and sign == 1:
+                    out.append((rb, lo_ + ro, _rw))
+                else:
+                    out.append((None, 0, expr))
+        return out
+    if isinstance(expr, ast.Call) and isinstance(expr.func, ast.Attribute) and expr.func.attr in ("find", "index", "rfind", "rindex") and expr.args:
+        return [(("search", dv.fold_str(expr.args[0])), 0, expr)]
+    if isinstance(expr, ast.Call) and isinstance(expr.func, ast.Name) and expr.func.id == "len" and len(expr.args) == 1 and isinstance(expr.args[0], ast.Name):
+        return [(("len", expr.args[0].id), 0, expr)]
+    if isinstance(expr, ast.Name) and depth < 6:
+        out = []
+        dead = dv.infeasible_defs(g.nodes[at]) if g.nodes[at].kind in ("stmt", "test", "return") else set()
+        cands = set(dv.rd[at].get(expr.id, set()))
+        for d in sorted(cands):
+            if d in dead or (d, expr.id) in _seen:
+                continue
+            # (the reaching-definitions table keeps what reaches an augmented assignment alive behind it: a definition counts here only if a
+            # path leads from it to `at` that passes no other definition of the name)
+            others = cands - {d}
+            if others and g.witness_path(d, [at], avoid=others, exc=False) is None:
+                continue
+            da = g.nodes[d].ast
+            if isinstance(da, ast.Assign) and len(da.targets) == 1 and isinstance(da.targets[0], ast.Name) and da.targets[0].id == expr.id:
+                out += _linear_values(dv, da.value, d, depth + 1, _seen | {(d, expr.id)})
+            elif isinstance(da, ast.AugAssign) and isinstance(da.op, (ast.Add, ast.Sub)) and isinstance(da.target, ast.Name):
+                out += _linear_values(dv, ast.BinOp(left=ast.Name(id=expr.id, ctx=ast.Load()), op=da.op, right=da.value), d, depth + 1, _seen | {(d, expr.id)})
+            else:
+                out.append((None, 0, da))
+        return out or [(None, 0, expr)]
+    return [(None, 0, expr)]
+
+
 def delimited_flags(dv: DecoderView):
     """Boolean locals that say 'the candidate frame is delimited in the buffer'.  Every definition is
       * `search_result != -1` for an SOH-anchored text search, or
@@ -501,6 +567,7 @@ def delimited_flags(dv: DecoderView):
             k = "end" if needle == dv.soh else ("trailer" if needle == dv.soh + "10=" else ("next" if needle.startswith(dv.soh + "8=") else "other"))
             kinds.setdefault(n.targets[0].id, set()).add(k)
     text_search_names = set(kinds)
+    dv._search_kinds = kinds
     cands = {}
     for n in dv.cfg.nodes:
         if n.kind == "stmt" and isinstance(n.ast, ast.Assign) and len(n.ast.targets) == 1 and isinstance(n.ast.targets[0], ast.Name):
